@@ -1104,6 +1104,13 @@ def fresh_source(ctx):
     ctx.check(bool(imp), imp[0] if imp else m.tree.body[0], "open_py_source is tokenize.open")
     op = [w for w in nodes_of_type(f, ast.With) if any(isinstance(i.context_expr, ast.Call) and call_name(i.context_expr) == "open_py_source" for i in w.items)]
     ctx.check(bool(op), op[0] if op else f, "existing source files are read from disk at call time (no inspect/linecache cache)", "get_func_code no longer reads the file itself")
+    # the fingerprint describes the callable that was handed in: the parameter is never re-bound to something it wraps
+    # (partial.func, __wrapped__, __func__) - a wrapper that freezes arguments or adds behaviour is different code
+    p0 = f.args.args[0].arg
+    rebinds = [n for n in ast.walk(f) if isinstance(n, ast.Name) and n.id == p0 and isinstance(n.ctx, (ast.Store, ast.Del))]
+    ctx.check(not rebinds, enclosing_stmt(rebinds[0]) if rebinds else f, "get_func_code fingerprints the object it was given (`%s` is never re-bound)" % p0,
+              "get_func_code re-binds `%s` (`%s`): the fingerprint is that of a wrapped / inner function - wrappers differing only in what they add (the frozen arguments of a "
+              "functools.partial) look like the same code and share cached results" % (p0, unparse(enclosing_stmt(rebinds[0]), 60) if rebinds else ""))
     g = cfg_of(f)
     for c in calls_in(f):
         if call_name(c) in ("inspect.getsource", "inspect.getsourcelines", "linecache.getlines"):
@@ -1551,6 +1558,17 @@ def shelve(ctx):
     g_ = M(ctx, "MemorizedResult.get")
     lo = [c for c in calls_in(g_) if call_name(c) == "self.store_backend.load_item"]
     ctx.check(bool(lo) and dotted(lo[0].args[0]) == "self._call_id", lo[0] if lo else g_, "a shelved reference loads the call id it was constructed with")
+    # every value get() returns was loaded from the store by THIS call of get(): a value kept on the reference is the very
+    # object handed to an earlier caller - edits made to it (results are usually mutable: lists, arrays) come back as "the
+    # cached value", and it survives a recomputation of the entry
+    loaded = {t for a in nodes_of_type(g_, ast.Assign) if any(c in lo for c in calls_in(a.value)) for t in stores_to(a)}
+    for r in nodes_of_type(g_, ast.Return):
+        v = r.value
+        ok = v is not None and ((isinstance(v, ast.Call) and v in lo) or (isinstance(v, ast.Name) and v.id in loaded and len([a for a in nodes_of_type(g_, ast.Assign) if v.id in stores_to(a)]) == 1))
+        ctx.check(ok, r, "get() returns what this very call loaded from the store", "get() returns `%s`, which is not the value loaded by this call: a value remembered on the reference is shared with "
+                  "earlier callers (their in-place edits are served as the cached result)" % unparse(v, 60))
+    kept = [a for a in nodes_of_type(g_, (ast.Assign, ast.AugAssign)) if any(t.startswith("self.") for t in stores_to(a)) and (any(c in lo for c in calls_in(a)) or names_in(a.value) & loaded)]
+    ctx.check(not kept, kept[0] if kept else g_, "nothing loaded is kept on the reference", "the loaded value is stored on the reference (`%s`)" % (unparse(kept[0], 60) if kept else ""))
     init = M(ctx, "MemorizedResult.__init__")
     st = assigns_to(init, "self._call_id")
     ctx.check(bool(st) and dotted(st[0].value) == "call_id", st[0] if st else init, "the call id is stored unchanged")
